@@ -906,6 +906,16 @@ class BIPBBMD(BIPSAP, Client, Server, RecurringTask, DebugContents):
             self.request(xpdu)
 
         elif isinstance(pdu, DistributeBroadcastToNetwork):
+            # only a registered foreign device is served
+            for fdte in self.bbmdFDT:
+                if fdte.fdAddress == pdu.pduSource:
+                    break
+            else:
+                if _debug: BIPBBMD._debug("    - not a registered foreign device")
+                xpdu = Result(code=0x0060, destination=pdu.pduSource, user_data=pdu.pduUserData)
+                self.request(xpdu)
+                return
+
             # send it upstream if there is a network layer
             if self.serverPeer:
                 # build a PDU with a local broadcast address
